@@ -7,6 +7,8 @@ import Driver.Transport
 import Driver.Serializer
 import Driver.Queue
 import Driver.Core
+import Driver.NodeTick
+import Driver.NodeSend
 
 /-- `driver <component>`: reads the component's line protocol on stdin, writes results on stdout. -/
 def main (args : List String) : IO UInt32 := do
@@ -20,6 +22,8 @@ def main (args : List String) : IO UInt32 := do
   | ["serializer"] => Driver.Serializer.run
   | ["queue"]      => Driver.Queue.run
   | ["core"]       => Driver.Core.run
+  | ["nodetick"]   => Driver.NodeTick.run
+  | ["nodesend"]   => Driver.NodeSend.run
   | _ => do
     IO.eprintln s!"usage: driver <component>; got {args}"
     return 2
